@@ -1,4 +1,4 @@
 SPECIFICATION Spec
-CONSTANTS Conns = {c1, c2, c3}  MaxReq = 3  Closers = {g1}  NoReportAfterTunnel = FALSE  ReportTwiceOnConnect = FALSE  NoOnce = FALSE
+CONSTANTS Conns = {c1, c2, c3}  MaxReq = 3  Closers = {g1}  NoReportAfterTunnel = FALSE  ReportTwiceOnConnect = FALSE  NoOnce = FALSE  MitmReportAtHandoff = FALSE
 CONSTRAINT Emit
 CHECK_DEADLOCK FALSE
